@@ -766,7 +766,20 @@ namespace trompeloeil {
     virtual
     ~tracer()
     {
-      set_tracer(previous);
+      auto& current = tracer_obj();
+      if (current == this)
+      {
+        current = previous;
+        return;
+      }
+      for (auto t = current; t; t = t->previous)
+      {
+        if (t->previous == this)
+        {
+          t->previous = previous;
+          break;
+        }
+      }
     }
   private:
     tracer* previous = set_tracer(this);
